@@ -12,7 +12,7 @@ from anytree.exporter import MermaidExporter
 from .. import forest, refs, shapes, strategies
 from ..core import Violation
 from . import c06
-from .c12 import NAME, NODE_CLASSES, TOKEN, decode_name, exotic_names, aborted_iterations, esc, expected_structure, special_names, tripwired
+from .c12 import check_locale, NAME, NODE_CLASSES, TOKEN, decode_name, exotic_names, aborted_iterations, esc, expected_structure, special_names, tripwired
 
 PROP_ID = "C13"
 LEVEL = "exploration"
@@ -32,6 +32,8 @@ ASSUMPTIONS = [
 
 
 def check_case(case, acc):
+    if case.get("kind") == "locale":
+        return check_locale(case, acc)
     names = case["names"]
     nodecls = NODE_CLASSES[case.get("cls", "Node")]
     tree = forest.build_tree(case["shape"], lambda i: nodecls(decode_name(names[i])))
@@ -75,7 +77,14 @@ def _once(case, acc, tree, labels):
         if key in case:
             kwargs[key] = case[key]
     trip = {"left": None}
-    exporter = MermaidExporter(start, **tripwired(kwargs, trip))
+    kwargs = tripwired(kwargs, trip)
+    if case.get("positional"):
+        # every option passed by position, in the order of the released signature
+        order = ["graph", "name", "options", "indent", "nodenamefunc", "nodefunc", "edgefunc", "filter_", "stop", "maxlevel"]
+        defaults = {"graph": "graph", "name": "TD", "indent": 0}
+        exporter = MermaidExporter(start, *[kwargs.get(key, defaults.get(key)) for key in order])
+    else:
+        exporter = MermaidExporter(start, **kwargs)
     ctx = "start=%s stop=%s hide=%s maxlevel=%r shape=%s names=%r" % (case["start"], case["stop"], case["hide"], maxlevel, case["shape"], names)
     indent = " " * case.get("indent", 0)
     header = "%s %s" % (case.get("graph", "graph"), case.get("name", "TD"))
@@ -196,7 +205,7 @@ def _enum_cases(max_nodes, index, count):
             for stop in shapes.subsets(sub):
                 for hide in shapes.subsets(sub):
                     for maxlevel in [None] + list(range(0, height + 3)):
-                        yield {"shape": forest.to_list(shape), "names": names, "start": start, "stop": stop, "hide": hide, "maxlevel": maxlevel, "truth": k, "indent": k % 3, "cls": ("Node", "EqNode", "Node", "FalsyNode", "LenNode")[k % 5]}
+                        yield {"shape": forest.to_list(shape), "names": names, "start": start, "stop": stop, "hide": hide, "maxlevel": maxlevel, "truth": k, "positional": k % 4 == 0, "indent": k % 3, "cls": ("Node", "EqNode", "Node", "FalsyNode", "LenNode")[k % 5]}
 
 
 @st.composite
@@ -206,7 +215,7 @@ def random_cases(draw):
     pool = draw(st.lists(NAME, min_size=1, max_size=4))
     names = [draw(st.one_of(st.sampled_from(pool), NAME)) for _ in range(size)]
     if draw(st.integers(0, 3)) == 0:
-        names = exotic_names(size, draw(st.integers(0, 13)))
+        names = exotic_names(size, draw(st.integers(0, 15)))
     case = {
         "shape": shape,
         "names": names,
@@ -215,6 +224,7 @@ def random_cases(draw):
         "hide": draw(strategies.subsets_of(size, max_size=4)),
         "maxlevel": draw(st.one_of(st.none(), st.integers(0, 6))),
         "truth": draw(st.integers(0, 3)),
+        "positional": draw(st.integers(0, 3)) == 0,
         "to_file": draw(st.integers(0, 9)) == 0 and not any(isinstance(n, str) and any(0xD800 <= ord(ch) <= 0xDFFF for ch in n) for n in names),
         "mutations": draw(strategies.tree_mutations(max_ops=2, rename_values=NAME)),
         "cls": draw(st.sampled_from(["Node", "Node", "EqNode", "FalsyNode", "LenNode"])),
@@ -254,11 +264,18 @@ def plan(tier, seed):
     examples = 150 if tier == "quick" else 1200
     tasks = [{"engine": "enum", "max_nodes": max_nodes, "index": i, "count": nshards * 2} for i in range(nshards * 2)]
     tasks += [{"engine": "hyp", "examples": examples, "seed": seed * 1000 + i} for i in range(nshards)]
+    tasks += [{"engine": "locale"}]
     tasks += [{"engine": "wide", "widths": [w]} for w in ((300, 700) if tier == "quick" else (257, 300, 700, 1100, 2500))]
     return tasks
 
 
 def run_task(task, acc):
+    if task["engine"] == "locale":
+        case = {"kind": "locale", "which": "mermaid"}
+        exc = acc.evaluate(check_case, case, enumerated=False)
+        if exc is not None:
+            acc.add_violation(case, exc)
+        return
     if task["engine"] == "wide":
         for case in _wide_cases(task["widths"]):
             exc = acc.evaluate(check_case, case, enumerated=False)
